@@ -2,6 +2,7 @@ package verifh
 
 import (
 	"encoding/hex"
+	"syscall"
 
 	"github.com/spf13/afero"
 
@@ -274,9 +275,9 @@ func TestC02(t *testing.T) {
 			}
 		}
 		// other transfer-buffer configurations (--buffer-size): tiny, small, and the unpooled copier (size <= 0)
-		for _, bs := range []int64{1, 4096, -1} {
+		for _, bs := range []int64{1, 1000, 1500, 4096, -1} {
 			for gi, g := range G {
-				if gi%7 != 0 || (bs == 1 && g.n > 4096) {
+				if gi%7 != 0 || (bs == 1 && g.n > 4096) || (bs > 1 && bs < 4096 && gi%14 != 0) {
 					continue
 				}
 				for _, crit := range []bool{false, true} {
@@ -297,6 +298,48 @@ func TestC02(t *testing.T) {
 					}
 					if res.Why != "" {
 						r.Violation("C02:"+o.kind+":bufsize:"+res.WhySig, sprintf("%s with transfer buffer size %d: %s", o.path, bs, res.Why), map[string]any{"object": o.path, "buffer_size": bs, "requests": reqs, "steps": res.Steps})
+					}
+				}
+			}
+		}
+		// a legal short read followed by a transient error (EINTR/EAGAIN) on the next filesystem operation: the
+		// server may answer exactly, refuse, or stop after a correct prefix, but never announce one length and
+		// send another or resend what it already sent
+		for gi, g := range G {
+			if gi%9 != 0 || g.n < 8 {
+				continue
+			}
+			for _, crit := range []bool{false, true} {
+				for _, bs := range []int{0, 1000} {
+					idx++
+					if !r.Mine(idx) {
+						continue
+					}
+					sc := c13Scenario{name: o.path, buf: bs, reqs: []Req{open, mk(crit, g), mk(!crit, g)}}
+					base := c13Run(t, w.Root, sc, mkModel, faultPlan{}, nil)
+					r.Transition(int64(len(base.steps)))
+					if base.why != "" {
+						continue // reported by the fault-free families above
+					}
+					for i, ev := range base.events {
+						if ev.Op != "Read" || ev.N < 4 {
+							continue
+						}
+						for _, e2 := range []syscall.Errno{syscall.EINTR, syscall.EAGAIN} {
+							p := faultPlan{At: map[int]FsFault{i: {Short: (ev.N + 1) / 2}, i + 1: {Err: e2}}, Desc: []string{sprintf("shorthalf@%d:Read", i), sprintf("%s@%d", e2.Error(), i+1)}}
+							res := c13Run(t, w.Root, sc, mkModel, p, nil)
+							r.Transition(int64(len(res.steps)))
+							r.Eval(1)
+							key := sprintf("%s|buf%d|%v|%s", o.path, bs, p.Desc, strings.Join(reqStrings(sc.reqs), ","))
+							r.State(key)
+							r.Nontrivial(key)
+							for _, st := range res.steps {
+								r.Outcome(o.kind + ":transient:" + st.Class)
+							}
+							if res.why != "" {
+								r.Violation("C02:"+o.kind+":transient:"+res.sig, sprintf("%s (buffer %d) with deviations %v: %s", o.path, bs, p.Desc, res.why), map[string]any{"object": o.path, "buffer_size": bs, "plan": p, "requests": sc.reqs, "steps": res.steps})
+							}
+						}
 					}
 				}
 			}
